@@ -77,6 +77,22 @@ def skip_dir(n):
     return n in SKIP or n.endswith(".egg-info")
 
 
+NEAR_MISS = ["environments", "envs", "venv311", ".venv-3.12", "env_py310", ".envrc.d", "builds", "distribution", "node_modules_old",
+             ".gitlab", "x.egg-infos", "targets", "tests/env_prod", "tests/venv-pypy3"]
+
+
+def near_miss_tree():
+    """(fixed) directories whose names only START like an ignored one (`environments`, `venv311`, `builds` …) are
+    ordinary directories: their conftest.py and tests are collected; the ignored names themselves are not entered"""
+    files = {"conftest.py": FX.format(0)}
+    k = 0
+    for d in NEAR_MISS + ["env", "venv", "build", ".env"]:
+        k += 1
+        files[d + "/conftest.py"] = FX.format("c%d" % k)
+        files[d + "/test_x.py"] = FX.format("t%d" % k)
+    return files, []
+
+
 def gen_tree(rng, shared_helpers=False):
     files = {}
     ndirs = rng.choice([2, 3, 4, 6])
@@ -165,7 +181,7 @@ def run(tier, seed):
     groups = []
     for i in range(n):
         rng = r.rng
-        files, importers = gen_tree(rng, shared_helpers=(i % 6 == 0))
+        files, importers = near_miss_tree() if i == 1 else gen_tree(rng, shared_helpers=(i % 6 == 0))
         unreadable = set(rng.sample(sorted(files), min(len(files), rng.choice([0, 0, 1, 2]))))
         patterns = rng.sample(PATTERNS, rng.choice([0, 0, 1, 2, 3]))
         # patterns that match a DIRECTORY of this tree but not the files below it: exclusion is per file
